@@ -69,6 +69,8 @@ F_BAG_TRUNC = 'C31-BAG-PUT-OBJECT-TRUNCATED-WHEN-ALSO-RELATED'
 F_BAG_FIRSTCOL = 'C31-BAG-COLLECTION-KEY-FIRST-COLUMN-ONLY'
 F_PICKLE_M2M = 'C31-PICKLE-M2M-COLLECTION-UNPICKLES-EMPTY'
 F_PICKLE_CYCLE = 'C31-PICKLE-REFERENCE-CYCLE-RECURSION'
+F_BAG_NOFLUSH = 'C31-BAG-UNFLUSHED-AUTO-PK-NONE'
+F_JSON_NOFLUSH = 'C31-TO-JSON-UNFLUSHED-AUTO-PK-NONE'
 
 HOSTILE = [',', '*', '**', '*,', ',*', 'a', '1', '1,2', '*,*', 'a*', ',a', '12', '*,,', 'a,b']
 
@@ -83,15 +85,21 @@ def schema(variant):
                    ('ok', 'scalar', 'bool'), ('money', 'scalar', 'decimal'), ('born', 'scalar', 'date'),
                    ('seen', 'scalar', 'datetime'), ('bio', 'lazy', 'str'), ('nick', 'scalar', 'nstr'),
                    ('passport', 'ref', 'Passport'), ('group', 'ref', 'Group'), ('tags', 'set', 'Tag'),
-                   ('items', 'set', 'Item'), ('best', 'ref', 'Item'), ('details', 'set', 'Detail')],
+                   ('items', 'set', 'Item'), ('best', 'ref', 'Item'), ('details', 'set', 'Detail'),
+                   ('memo', 'ref', 'Memo'), ('notes', 'set', 'Note'), ('labels', 'set', 'Label')],
         'Passport': [('id', 'pk', 'int'), ('person', 'ref', 'Person'), ('code', 'scalar', 'str')],
         'Group': [('id', 'pk', 'int'), ('title', 'scalar', 'str'), ('note', 'lazy', 'str'), ('members', 'set', 'Person')],
         'Tag': [('id', 'pk', tagpk), ('people', 'set', 'Person')],
         'Item': [('a', 'pk', 'str'), ('b', 'pk', btype), ('q', 'scalar', 'int'), ('owner', 'ref', 'Person'),
-                 ('fans', 'set', 'Person'), ('subs', 'set', 'Sub'), ('marks', 'set', 'Mark'), ('detail', 'ref', 'Detail')],
+                 ('fans', 'set', 'Person'), ('subs', 'set', 'Sub'), ('marks', 'set', 'Mark'), ('detail', 'ref', 'Detail'),
+                 ('inotes', 'set', 'Note')],
         'Sub': [('item', 'pkref', 'Item'), ('n', 'pk', 'str'), ('v', 'scalar', 'int')],
         'Mark': [('id', 'pk', 'int'), ('items', 'set', 'Item')],
         'Detail': [('item', 'pkref', 'Item'), ('person', 'ref', 'Person'), ('v', 'scalar', 'int')],
+        # entities with an AUTO primary key: objects created inside a session have no key until the first flush
+        'Memo': [('id', 'pk', 'int'), ('text', 'scalar', 'str'), ('holders', 'set', 'Person')],
+        'Note': [('id', 'pk', 'int'), ('text', 'scalar', 'str'), ('person', 'ref', 'Person'), ('item', 'ref', 'Item')],
+        'Label': [('id', 'pk', 'int'), ('text', 'scalar', 'str'), ('people', 'set', 'Person')],
     }
     return S
 
@@ -99,7 +107,8 @@ def schema(variant):
 REV = {('Person', 'passport'): ('Passport', 'person'), ('Person', 'group'): ('Group', 'members'),
        ('Person', 'tags'): ('Tag', 'people'), ('Person', 'items'): ('Item', 'owner'), ('Person', 'best'): ('Item', 'fans'),
        ('Person', 'details'): ('Detail', 'person'), ('Item', 'subs'): ('Sub', 'item'), ('Item', 'marks'): ('Mark', 'items'),
-       ('Item', 'detail'): ('Detail', 'item')}
+       ('Item', 'detail'): ('Detail', 'item'), ('Person', 'memo'): ('Memo', 'holders'), ('Person', 'notes'): ('Note', 'person'),
+       ('Person', 'labels'): ('Label', 'people'), ('Item', 'inotes'): ('Note', 'item')}
 for (e, a), (e2, a2) in list(REV.items()): REV[(e2, a2)] = (e, a)
 
 SOURCE = '''
@@ -120,6 +129,9 @@ class Person(db.Entity):
     items = Set('Item', reverse='owner')
     best = Optional('Item', reverse='fans')
     details = Set('Detail')
+    memo = Optional('Memo')
+    notes = Set('Note')
+    labels = Set('Label')
 class Passport(db.Entity):
     id = PrimaryKey(int)
     person = Required(Person)
@@ -142,6 +154,7 @@ class Item(db.Entity):
     subs = Set('Sub')
     marks = Set('Mark')
     detail = Optional('Detail')
+    inotes = Set('Note')
 class Sub(db.Entity):
     item = Required(Item)
     n = Required(str)
@@ -154,9 +167,23 @@ class Detail(db.Entity):
     item = PrimaryKey(Item)
     person = Optional(Person)
     v = Optional(int)
+class Memo(db.Entity):
+    id = PrimaryKey(int, auto=True)
+    text = Optional(str)
+    holders = Set(Person)
+class Note(db.Entity):
+    id = PrimaryKey(int, auto=True)
+    text = Optional(str)
+    person = Optional(Person)
+    item = Optional(Item)
+class Label(db.Entity):
+    id = PrimaryKey(int, auto=True)
+    text = Optional(str)
+    people = Set(Person)
 '''
 
-ENTS = ['Person', 'Passport', 'Group', 'Tag', 'Item', 'Sub', 'Mark', 'Detail']
+ENTS = ['Person', 'Passport', 'Group', 'Tag', 'Item', 'Sub', 'Mark', 'Detail', 'Memo', 'Note', 'Label']
+AUTO = ('Memo', 'Note', 'Label')
 
 
 class Env(object):
@@ -291,6 +318,9 @@ def populate(env, M, rng):
             subs.append(mk('Sub', raw, n=n, v=rng.choice([None, 5])))
         details = [mk('Detail', it[1], v=rng.choice([None, 9])) for it in rng.sample(items, 3)]
         passports = [mk('Passport', (i,), id=i, code='c%d' % i) for i in (1, 2)]
+        memos = [mk('Memo', (i,), id=i, text='memo%d' % i) for i in (1, 2)]
+        notes = [mk('Note', (i,), id=i, text='note%d' % i) for i in (1, 2, 3)]
+        labels = [mk('Label', (i,), id=i, text='label%d' % i) for i in (1, 2)]
         # links in the model
         for s in subs: M.link(s, 'item', ('Item', s[1][:2]))
         for d in details: M.link(d, 'item', ('Item', d[1]))
@@ -306,8 +336,15 @@ def populate(env, M, rng):
                 if rng.random() < 0.5: M.coll_add(it, 'marks', mk_)
         for d in details:
             if rng.random() < 0.7: M.link(d, 'person', rng.choice(persons))
+        for p in persons:
+            if rng.random() < 0.5: M.link(p, 'memo', rng.choice(memos))
+            for lb in labels:
+                if rng.random() < 0.4: M.coll_add(p, 'labels', lb)
+        for nt in notes:
+            if rng.random() < 0.7: M.link(nt, 'person', rng.choice(persons))
+            if rng.random() < 0.5: M.link(nt, 'item', rng.choice(items))
         # create in pony from the model (principals first)
-        order = ['Group', 'Tag', 'Mark', 'Person', 'Passport', 'Item', 'Sub', 'Detail']
+        order = ['Group', 'Tag', 'Mark', 'Memo', 'Label', 'Person', 'Passport', 'Item', 'Sub', 'Detail', 'Note']
         for ent in order:
             for key in M.of(ent):
                 create_from_model(env, M, key, live)
@@ -385,14 +422,121 @@ def norm_result(v):
     return v
 
 
+class AutoId(int):
+    """Key of an object that was created WITHOUT a key inside the session under test (auto primary key): the value is
+    only known after the first flush; serialisers that read it before a flush see None."""
+
+
+class AutoKey(str):
+    """str(AutoId) used as a JSON object key."""
+
+
 def same(a, b):
     """Equality that distinguishes bool from int and Decimal from float/int, keeps tuple vs list apart only for keys."""
+    if isinstance(a, AutoId): a = int(a)
+    if isinstance(b, AutoId): b = int(b)
     if type(a) != type(b):
         if isinstance(a, (list, tuple)) and isinstance(b, (list, tuple)): pass
         else: return False
     if isinstance(a, (list, tuple)): return len(a) == len(b) and all(same(x, y) for x, y in zip(a, b))
     if isinstance(a, dict): return set(a) == set(b) and all(same(a[k], b[k]) for k in a)
     return a == b
+
+
+def lenient_same(g, w):
+    """Deviation rule of F_*_NOFLUSH: like same(), but every position of the reference that holds the key of an object
+    created without a key in this session (AutoId / AutoKey) may read None / 'null' (it was read before any flush)."""
+    if isinstance(w, AutoId): return g is None or (type(g) is int and g == int(w))
+    if isinstance(w, dict):
+        if not isinstance(g, dict): return False
+        used = set()
+        for wk, wv in w.items():
+            cands = [wk]
+            if isinstance(wk, (AutoId, AutoKey)): cands += [None, 'null']
+            for c in cands:
+                if c in g and lenient_same(g[c], wv): used.add(c); break
+            else: return False
+        return len(used) == len(g)
+    if isinstance(w, (list, tuple)):
+        if not isinstance(g, (list, tuple)) or len(g) != len(w): return False
+        if all(lenient_same(a, b) for a, b in zip(g, w)): return True
+        rest = list(g)                       # a None sorts elsewhere than the key it stands for
+        for b in w:
+            for i, a in enumerate(rest):
+                if lenient_same(a, b): del rest[i]; break
+            else: return False
+        return True
+    return same(g, w)
+
+
+def has_auto(x):
+    if isinstance(x, (AutoId, AutoKey)): return True
+    if isinstance(x, dict): return any(has_auto(k) or has_auto(v) for k, v in x.items())
+    if isinstance(x, (list, tuple)): return any(has_auto(i) for i in x)
+    return False
+
+
+def rekey(M, old, new):
+    """Give a model object its real key (everywhere it is mentioned)."""
+    o = M.objs.pop(old)
+    M.objs[new] = o
+    if 'id' in o['vals']: o['vals']['id'] = new[1][0]
+    for k, d in M.objs.items():
+        for a, t in d['refs'].items():
+            if t == old: d['refs'][a] = new
+        for a, ts in d['sets'].items():
+            if old in ts: ts.discard(old); ts.add(new)
+
+
+def preload(env, obj, key):
+    """Load everything a serialiser may read from obj and from its directly related objects, so that the call under test
+    has no reason to run a query (a query would flush pending changes as a side effect)."""
+    for name, kind, extra in env.S[key[0]]:
+        v = getattr(obj, name)
+        if kind in ('ref', 'pkref') and v is not None: v.load()
+        elif kind == 'set':
+            for i in list(v): i.load()
+
+
+def add_unflushed(env, M2, obj, key, rng, want_all=False):
+    """State 'loaded object referencing / containing created-unflushed objects with auto keys': obj (Person or Item,
+    loaded) gets a to-one reference to, and collections containing, brand-new objects of auto-key entities.  Nothing is
+    flushed here.  Returns (new, resolve): new = [[placeholder model key, pony object]...]; resolve() flushes if the
+    call under test did not, replaces the placeholders in M2 by the real keys (AutoId) and says whether it had to flush."""
+    from pony.orm import flush
+    ent = key[0]
+    new = []
+    def mk(ent2, **kw):
+        ph = (ent2, ('?%d' % len(new),))
+        M2.add(ent2, ph[1], {'id': None, 'text': kw.get('text', '')})
+        o = env.E[ent2](**kw)
+        new.append([ph, o])
+        return ph, o
+    if ent == 'Person':
+        if want_all or rng.random() < 0.8:
+            ph, m = mk('Memo', text='newmemo'); obj.memo = m; M2.link(key, 'memo', ph)
+        if want_all or rng.random() < 0.6:
+            ph, n = mk('Note', text='newnote', person=obj); M2.link(ph, 'person', key)
+        if want_all or rng.random() < 0.5:
+            ph, n = mk('Note', text='newnote2'); obj.notes.add(n); M2.coll_add(key, 'notes', ph)
+        if want_all or rng.random() < 0.6:
+            ph, lb = mk('Label', text='newlabel'); obj.labels.add(lb); M2.coll_add(key, 'labels', ph)
+        if not new:
+            ph, m = mk('Memo', text='newmemo'); obj.memo = m; M2.link(key, 'memo', ph)
+    elif ent == 'Item':
+        ph, n = mk('Note', text='inote', item=obj); M2.link(ph, 'item', key)
+        if want_all or rng.random() < 0.5:
+            ph, n = mk('Note', text='inote2'); obj.inotes.add(n); M2.coll_add(key, 'inotes', ph)
+    def resolve():
+        had_to = any(o._pkval_ is None for ph, o in new)
+        if had_to: flush()
+        for pair in new:
+            ph, o = pair
+            if ph[1][0].__class__ is str and ph[1][0].startswith('?'):
+                real = (ph[0], (AutoId(o._pkval_),))
+                rekey(M2, ph, real); pair[0] = real
+        return had_to
+    return new, resolve
 
 
 def option_matrix(S, ent, rng):
@@ -415,8 +559,10 @@ def option_matrix(S, ent, rng):
     return combos, extra
 
 
-def check_to_dict(ctx, env, M, obj, key, state, combos, tag=''):
+def check_to_dict(ctx, env, M, obj, key, state, combos, tag='', post=None):
+    keyref = key if isinstance(key, list) else [key]         # [model key, ...]: the key may be resolved by post()
     for (only, exclude, wc, wl, ro) in combos:
+        key = keyref[0]
         exp_names = attr_names(env.S, key[0], only, exclude, wc, wl)
         kw = {}
         if only is not None: kw['only'] = copy.copy(only)
@@ -434,6 +580,8 @@ def check_to_dict(ctx, env, M, obj, key, state, combos, tag=''):
             exc = None
         except Exception as e:
             got, exc = None, e
+        if post is not None and post(): ctx.count('to_dict.call_left_new_objects_unflushed')
+        key = keyref[0]
         w = lambda **k: dict(dict(quick=env.quick, variant=env.variant, pop=env.pop, check='to_dict', state=state, key=key, options=desc), **k)
         if (isinstance(only, list) and not only) or (isinstance(exclude, list) and not exclude):
             if isinstance(exc, TypeError): ctx.count('bracket.empty_list_option_typeerror'); continue
@@ -602,6 +750,25 @@ def section_to_dict(ctx, env, M, rng, quick):
                                 if t is not None:
                                     check_to_dict(ctx, env, M2, pony_obj(env, t), t, 'created_other_end', [(None, None, True, False, False)])
                 rollback()
+        # loaded object referencing / containing created-unflushed objects with AUTO keys (nothing flushed before the call)
+        if ent in ('Person', 'Item'):
+            for key in sample:
+                for i, combo in enumerate(combos):
+                    import random
+                    ar = random.Random('%s/%d' % (ent, i // 8))
+                    with db_session:
+                        M2 = copy.deepcopy(M)
+                        obj = pony_obj(env, key)
+                        new, resolve = add_unflushed(env, M2, obj, key, ar, want_all=(i % 3 == 0))
+                        ctx.count('to_dict.objects_referencing_unflushed_auto')
+                        if i % 6 == 3:      # the new object itself first (it has no key yet), then the loaded one
+                            check_to_dict(ctx, env, M2, new[0][1], new[0], 'created_auto_unflushed', [combo], post=resolve)
+                            check_to_dict(ctx, env, M2, obj, key, 'refs_auto_after_flush', [combo])
+                        else:
+                            check_to_dict(ctx, env, M2, obj, key, 'refs_unflushed_auto', [combo], post=resolve)
+                            if i % 6 == 0:
+                                for pair in new: check_to_dict(ctx, env, M2, pair[1], pair, 'new_auto_after', [(None, None, True, False, False)])
+                        rollback()
 
 # ---------------------------------------------------------------------------------------------------------------
 # (2) composite key encoding + Bag
@@ -715,7 +882,8 @@ def bag_reference(S, M, put, cfgs, order=None, firstcol_dev=False):
 
 
 def jsonify(x):
-    if isinstance(x, dict): return {str(k) if not isinstance(k, bool) else json.dumps(k): jsonify(v) for k, v in x.items()}
+    if isinstance(x, dict): return {(AutoKey(int(k)) if isinstance(k, AutoId) else str(k)) if not isinstance(k, bool) else json.dumps(k): jsonify(v)
+                                    for k, v in x.items()}
     if isinstance(x, (list, tuple)): return [jsonify(i) for i in x]
     if isinstance(x, (Decimal, date, datetime)): return str(x)
     return x
@@ -750,14 +918,28 @@ def section_bag(ctx, env, M, rng, quick):
                 c = random_cfg(env.S, ent, rng)
                 if c is not None: cfgs[ent] = c
         modified = (r % 5 == 4)
+        unflushed = (r % 6 == 5 and not modified)
+        if unflushed:
+            put = [rng.choice(M.of('Person') + M.of('Item')[:2])] + [k for k in put[1:]]
+            put = [k for i, k in enumerate(put) if k not in put[:i]]
+            ctx.count('bag.unflushed_auto')
         with db_session:
-            M2 = M
+            M2, resolve = M, None
             objs = [pony_obj(env, k) for k in put]
+            putrefs = list(put)
             if modified:
                 M2 = copy.deepcopy(M)
                 k0 = put[0]
                 apply_mods(env, M2, objs[0], k0, rng)
-            desc = {'mode': mode, 'put': put, 'cfgs': cfgs, 'modified': modified}
+            if unflushed:
+                M2 = copy.deepcopy(M)
+                if (r // 6) % 2 == 0: preload(env, objs[0], put[0]); desc_pre = True
+                else: desc_pre = False
+                new, resolve = add_unflushed(env, M2, objs[0], put[0], rng, want_all=(r % 12 == 11))
+                if r % 4 < 2:                                  # a brand-new object put into the bag as well
+                    putrefs.append(new[0]); objs.append(new[0][1])
+            desc = {'mode': mode, 'put': put, 'cfgs': cfgs, 'modified': modified, 'unflushed_auto': unflushed,
+                    'preloaded': unflushed and desc_pre}
             ctx.case([env.vfp, 'bag', mode, sorted(map(repr, put)), json.dumps(cfgs, sort_keys=True, default=repr), modified],
                      nontrivial=True, sample=desc)
             ctx.count('bag.calls'); ctx.count('bag.mode.' + mode)
@@ -769,11 +951,14 @@ def section_bag(ctx, env, M, rng, quick):
                     if r % 2: bag.put(objs)
                     else:
                         for o in objs: bag.put(o)
-                    order = [key_of(o) for ent_, os_ in bag.objects.items() for o in os_]
+                    order = [o for ent_, os_ in bag.objects.items() for o in os_]
                     got = bag.to_dict() if mode == 'bag' else json.loads(bag.to_json())
                 elif mode == 'to_dict': got = serialization.to_dict(objs if len(objs) > 1 or r % 2 else objs[0])
                 else: got = json.loads(serialization.to_json(objs))
             except Exception as e:
+                if unflushed and isinstance(e, TypeError) and mode in ('bag_json', 'to_json'):
+                    # json.dumps(sort_keys=True) cannot order a None key (unflushed object) with int keys: loud
+                    ctx.count('outcome.pony_raised.bag_json_unflushed_TypeError'); rollback(); continue
                 ctx.violation(dict(quick=env.quick, variant=env.variant, pop=env.pop, check='bag', desc=desc, exc=repr(e)), mechanism='bag-raised')
                 rollback(); continue
             if order is None:
@@ -781,12 +966,15 @@ def section_bag(ctx, env, M, rng, quick):
                 # same dict / set iteration order
                 probe = serialization.Bag(env.db)
                 probe.put(objs[0]); probe.put(objs[1:])
-                order = [key_of(o) for ent_, os_ in probe.objects.items() for o in os_]
-            judge_bag(ctx, env, M2, put, cfgs, got, mode, desc, order, objs)
+                order = [o for ent_, os_ in probe.objects.items() for o in os_]
+            if resolve is not None and resolve(): ctx.count('bag.call_left_new_objects_unflushed')
+            put = [k[0] if isinstance(k, list) else k for k in putrefs]
+            order = [key_of(o) for o in order]
+            judge_bag(ctx, env, M2, put, cfgs, got, mode, desc, order, objs, auto=unflushed)
             rollback()
 
 
-def judge_bag(ctx, env, M2, put, cfgs, got, mode, desc, order, objs):
+def judge_bag(ctx, env, M2, put, cfgs, got, mode, desc, order, objs, auto=False):
     js = mode in ('bag_json', 'to_json')
     conv = jsonify if js else (lambda x: x)
     got = {e: dict(d) for e, d in dict(got).items()}
@@ -797,6 +985,7 @@ def judge_bag(ctx, env, M2, put, cfgs, got, mode, desc, order, objs):
     # every object put in appears exactly once under its entity name and key
     for k in put:
         kk = enc_key(k[1]); kk = str(kk) if js else kk
+        if auto and isinstance(k[1][0], AutoId): continue          # judged by the content comparison below
         if k[0] not in got_cmp or kk not in got_cmp[k[0]]:
             ctx.violation(dict(w, missing=k), mechanism='bag-object-missing'); return
     if same_bag(got_cmp, want): ctx.count('outcome.agree'); return
@@ -812,6 +1001,10 @@ def judge_bag(ctx, env, M2, put, cfgs, got, mode, desc, order, objs):
                 if fc:
                     ctx.count('finding.bag_first_column'); ctx.finding(F_BAG_FIRSTCOL, dict(w, got=jsonify(got_cmp), want=jsonify(want)))
                 return
+    if auto and lenient_same(got_cmp, want):
+        ctx.count('finding.bag_unflushed_auto_none')
+        ctx.finding(F_BAG_NOFLUSH, dict(w, got=jsonify(got_cmp), want=jsonify(want)))
+        return
     ctx.violation(dict(w, got=jsonify(got_cmp), want=jsonify(want)), mechanism='bag-content')
 
 
@@ -829,7 +1022,7 @@ def tojson_reference(S, M, roots, include, exclude):
         key = todo.pop(0)
         ent = key[0]
         d = out.setdefault(ent, {})
-        for p in key[1]: d = d.setdefault(str(p), {})
+        for p in key[1]: d = d.setdefault(AutoKey(int(p)) if isinstance(p, AutoId) else str(p), {})
         for name, kind, extra in S[ent]:
             if (ent, name) in exclude: continue
             inc = (ent, name) in include
@@ -848,7 +1041,7 @@ def tojson_reference(S, M, roots, include, exclude):
 
 
 def section_to_json(ctx, env, M, rng, quick):
-    from pony.orm import db_session, select
+    from pony.orm import db_session, select, rollback
     keys_all = sorted(M.objs)
     relattrs = [(e, n) for e in ENTS for n, k, x in env.S[e] if k in ('set', 'lazy', 'ref')]
     allattrs = [(e, n) for e in ENTS for n, k, x in env.S[e] if k != 'pk' and k != 'pkref']
@@ -862,46 +1055,71 @@ def section_to_json(ctx, env, M, rng, quick):
         ctx.case([env.vfp, 'to_json', shape, sorted(map(repr, roots)), sorted(include), sorted(exclude)], nontrivial=True, sample=desc)
         ctx.count('to_json.calls')
         w = dict(quick=env.quick, variant=env.variant, pop=env.pop, check='to_json', desc=desc)
+        unflushed = (r % 4 == 3 and shape != 'queryresult')
+        if unflushed:
+            roots = [rng.choice(M.of('Person') + M.of('Item')[:2])] + [k for k in roots[1:]]
+            roots = [k for i, k in enumerate(roots) if k not in roots[:i]]
+            desc['roots'] = roots; desc['unflushed_auto'] = True
+            ctx.count('to_json.unflushed_auto')
         with db_session:
             inc = [getattr(env.E[e], a) for e, a in include]
             exc = [getattr(env.E[e], a) for e, a in exclude]
+            M2, resolve = M, None
+            rootrefs = list(roots)                              # model keys, or [placeholder, obj] pairs of new objects
             try:
-                if shape == 'obj':
-                    roots = roots[:1]; data = pony_obj(env, roots[0]); want_data = ref_data(roots[0])
-                    text = env.db.to_json(data, include=inc, exclude=exc, with_schema=False)
-                elif shape == 'list':
-                    data = [pony_obj(env, k) for k in roots]; want_data = [ref_data(k) for k in roots]
-                    text = env.db.to_json(data, include=inc, exclude=exc, with_schema=False)
-                elif shape == 'dict':
-                    data = {'a': [pony_obj(env, k) for k in roots], 'n': 5, 'nested': {'first': pony_obj(env, roots[0])}}
-                    want_data = {'a': [ref_data(k) for k in roots], 'n': 5, 'nested': {'first': ref_data(roots[0])}}
-                    text = env.db.to_json(data, include=inc, exclude=exc, with_schema=False)
-                elif shape == 'method':
-                    roots = roots[:1]; want_data = ref_data(roots[0])
-                    text = pony_obj(env, roots[0]).to_json(include=inc, exclude=exc, with_schema=(r % 2 == 0))
-                else:
+                if shape == 'queryresult':
                     ent = roots[0][0]
-                    roots = M.of(ent)
                     res = env.E[ent].select()[:]
-                    want_data = None
                     text = res.to_json(include=inc, exclude=exc, with_schema=False)
-                    got_order = [key_of(o) for o in res]
-                    want_data = [ref_data(k) for k in got_order]
-                    if sorted(got_order) != sorted(roots):
-                        ctx.violation(dict(w, got=got_order), mechanism='to_json-queryresult'); continue
+                    rootrefs = [key_of(o) for o in res]
+                    if sorted(rootrefs) != sorted(M.of(ent)):
+                        ctx.violation(dict(w, got=rootrefs), mechanism='to_json-queryresult'); continue
+                    build = lambda ks: [ref_data(k) for k in ks]
+                else:
+                    if shape in ('obj', 'method'): rootrefs = rootrefs[:1]
+                    objs = [pony_obj(env, k) for k in rootrefs]
+                    if unflushed:
+                        M2 = copy.deepcopy(M)
+                        if (r // 4) % 2 == 0: preload(env, objs[0], rootrefs[0]); desc['preloaded'] = True
+                        new, resolve = add_unflushed(env, M2, objs[0], rootrefs[0], rng, want_all=(r % 8 == 7))
+                        if shape in ('list', 'dict') and r % 3 == 0:          # a brand-new object given directly as well
+                            rootrefs.append(new[0]); objs.append(new[0][1])
+                    if shape == 'obj':
+                        data = objs[0]; build = lambda ks: ref_data(ks[0])
+                        text = env.db.to_json(data, include=inc, exclude=exc, with_schema=False)
+                    elif shape == 'list':
+                        data = list(objs); build = lambda ks: [ref_data(k) for k in ks]
+                        text = env.db.to_json(data, include=inc, exclude=exc, with_schema=False)
+                    elif shape == 'dict':
+                        data = {'a': list(objs), 'n': 5, 'nested': {'first': objs[0]}}
+                        build = lambda ks: {'a': [ref_data(k) for k in ks], 'n': 5, 'nested': {'first': ref_data(ks[0])}}
+                        text = env.db.to_json(data, include=inc, exclude=exc, with_schema=False)
+                    else:
+                        build = lambda ks: ref_data(ks[0])
+                        text = objs[0].to_json(include=inc, exclude=exc, with_schema=(r % 2 == 0))
             except Exception as e:
-                ctx.violation(dict(w, exc=repr(e)), mechanism='to_json-raised'); continue
+                if unflushed and isinstance(e, TypeError) and 'NoneType' in str(e):
+                    # sorting a collection's keys with a None (unflushed object) among them: loud
+                    ctx.count('outcome.pony_raised.to_json_unflushed_TypeError'); rollback(); continue
+                ctx.violation(dict(w, exc=repr(e)), mechanism='to_json-raised'); rollback(); continue
             try: got = json.loads(text)
             except ValueError as e:
-                ctx.violation(dict(w, text=text[:500], exc=repr(e)), mechanism='to_json-invalid-json'); continue
-            want_objects = tojson_reference(env.S, M, roots, set(include) - set(exclude), set(exclude))
-            if got.get('data') != jsonify(want_data):
-                ctx.violation(dict(w, got=got.get('data'), want=jsonify(want_data)), mechanism='to_json-data')
-            elif got.get('objects') != want_objects:
+                ctx.violation(dict(w, text=text[:500], exc=repr(e)), mechanism='to_json-invalid-json'); rollback(); continue
+            if resolve is not None and resolve(): ctx.count('to_json.call_left_new_objects_unflushed')
+            keys = [k[0] if isinstance(k, list) else k for k in rootrefs]
+            want_data = jsonify(build(keys))
+            want_objects = tojson_reference(env.S, M2, keys, set(include) - set(exclude), set(exclude))
+            if got.get('data') == want_data and got.get('objects') == want_objects: ctx.count('outcome.agree')
+            elif unflushed and lenient_same(got.get('data'), want_data) and lenient_same(got.get('objects'), want_objects):
+                ctx.count('finding.to_json_unflushed_auto_none')
+                ctx.finding(F_JSON_NOFLUSH, dict(w, got=got, want={'data': want_data, 'objects': want_objects}))
+            elif got.get('data') != want_data:
+                ctx.violation(dict(w, got=got.get('data'), want=want_data), mechanism='to_json-data')
+            else:
                 ctx.violation(dict(w, got=got.get('objects'), want=want_objects), mechanism='to_json-objects')
-            else: ctx.count('outcome.agree')
             if shape == 'method' and r % 2 == 0 and 'schema' not in got:
                 ctx.violation(dict(w, keys=sorted(got)), mechanism='to_json-schema-missing')
+            rollback()
 
 
 def ref_data(key):
@@ -1109,6 +1327,57 @@ def section_pickle(ctx, env, M, rng, quick):
                 if g != order: ctx.violation(dict(w, got=g), mechanism='unpickle-queryresult-order')
                 else: ctx.count('outcome.agree')
 
+    # d2. query results of every producer (slice, limit / offset, page, fetch) in every materialisation state
+    STATES = ('untouched', 'len', 'partial_iter', 'index', 'contains', 'bool_repr', 'full')
+    for ent in ('Person', 'Item', 'Note', 'Sub') if not quick else ('Person', 'Item', 'Note'):
+        E = env.E[ent]
+        pkattrs = [getattr(E, a.name) for a in E._pk_attrs_]
+        n = len(M.of(ent))
+        producers = [('limit', 2, 0), ('limit', 2, 1), ('limit', 3, n - 2), ('limit', 2, n), ('limit', None, 2), ('page', 1, 2), ('page', 2, 2),
+                     ('page', 2, 3), ('page', 3, 1), ('slice', 1, 3), ('slice', 0, 2), ('slice', 2, None), ('fetch', 2, 1), ('fetch', None, None)]
+        for pi, (prod, x, y) in enumerate(producers):
+            for st in STATES:
+                for projection in (('entity', 'scalar') if (pi + len(st)) % 3 == 0 else ('entity',)):
+                    w = W(scenario='result_state', entity=ent, producer=[prod, x, y], state=st, projection=projection)
+                    blob = None
+                    with db_session:
+                        if projection == 'entity':
+                            q = E.select().order_by(*pkattrs)
+                            full = [key_of(o) for o in E.select().order_by(*pkattrs)]
+                            norm = key_of
+                        else:
+                            q = select(p.id for p in env.E['Person']).order_by(-1)
+                            full = sorted((k[1][0] for k in M.of('Person')), reverse=True)
+                            norm = lambda v: v
+                        if prod == 'limit': res = q.limit(x, offset=y) if x is not None else q.limit(None, offset=y); want = full[y:] if x is None else full[y:y + x]
+                        elif prod == 'page': res = q.page(x, y); want = full[(x - 1) * y:(x - 1) * y + y]
+                        elif prod == 'slice': res = q[x:y]; want = full[x:y]
+                        else: res = q.fetch(x, y); want = full[(y or 0):] if x is None else full[(y or 0):(y or 0) + x]
+                        if st == 'len': len(res)
+                        elif st == 'partial_iter':
+                            it = iter(res)
+                            try: next(it)
+                            except StopIteration: pass
+                        elif st == 'index':
+                            try: res[0]
+                            except IndexError: pass
+                        elif st == 'contains': (full[0] if projection == 'scalar' else pony_obj(env, full[0])) in res
+                        elif st == 'bool_repr': repr(res)
+                        elif st == 'full': list(res)
+                        ctx.case([env.vfp, 'pickle', 'result_state', ent, prod, x, y, st, projection], nontrivial=True,
+                                 sample={'scenario': 'result_state', 'entity': ent, 'producer': [prod, x, y], 'state': st})
+                        ctx.count('pickle.result_state'); ctx.count('pickle.result_state.' + st); ctx.count('pickle.result_producer.' + prod)
+                        if y and prod in ('limit', 'page') and st == 'untouched': ctx.count('pickle.result_state.lazy_untouched_with_offset')
+                        blob = dumps(res, w)
+                    if blob is None: continue
+                    with db_session:
+                        try: got = [norm(v) for v in pickle.loads(blob)]
+                        except Exception as e:
+                            ctx.violation(dict(w, exc=repr(e)), mechanism='unpickle-raised'); continue
+                        ctx.count('pickle.loads')
+                        if got == want: ctx.count('outcome.agree')
+                        else: ctx.violation(dict(w, got=got, want=want), mechanism='unpickle-queryresult-content')
+
     # e. objects loaded only partially through raw SQL (pk columns only)
     for ent in ('Person', 'Group', 'Item'):
         E = env.E[ent]
@@ -1190,7 +1459,7 @@ VARIANTS = [{'tag_pk': 'int', 'item_b': 'int'}, {'tag_pk': 'str', 'item_b': 'str
 
 def run(ctx):
     quick = ctx.tier == 'quick'
-    n = 8 if quick else 8
+    n = 6 if quick else 8
     for i in range(n):
         pop = ctx.shard * 100 + i
         run_variant(ctx, VARIANTS[(i + ctx.shard) % 4], pop, quick)
@@ -1205,6 +1474,11 @@ def run(ctx):
     ctx.floor('pickle.loads', int(500 * k))
     ctx.floor('outcome.agree', int(40000 * k))
     ctx.floor('pickle.loaded_attr_checks', int(1000 * k))
+    ctx.floor('to_dict.objects_referencing_unflushed_auto', int(1500 * k))
+    ctx.floor('bag.unflushed_auto', int(40 * k))
+    ctx.floor('to_json.unflushed_auto', int(30 * k))
+    ctx.floor('pickle.result_state', int(1000 * k))
+    ctx.floor('pickle.result_state.lazy_untouched_with_offset', int(60 * k))
     ctx.floor('pickle.collection_checks', int(20 * k))
     ctx.floor('pickle.queryresult_checks', int(20 * k))
 
